@@ -30,9 +30,10 @@ def find_orderers(F, cg):
     return res
 
 
-def run(ctx, only=None, floors=True):
+def run(ctx, only=None, floors=True, clients=None):
     """`only`: predicate on the orderer function — used by properties that depend on one particular orderer
-    (C06: GDSII structures, C09: placement, C14: raw cells, C19: gridded cells)"""
+    (C06: GDSII structures, C09: placement, C14: raw cells, C19: gridded cells); `clients`: predicate on the `process`
+    implementations of the generic orderer that belong to that property"""
     F = ctx.F
     cg = CallGraph(F)
     ctx.rule("R17.1", "recursive orderer shape: pending-set cycle guard around the descent, seen-set test first, output push after all descents, exactly once")
@@ -227,6 +228,8 @@ def run(ctx, only=None, floors=True):
     generic = only is None or any(f.id.startswith("layout21utils::") for f, _, _ in orderers)
     for g in F.fns.values():
         if not generic or not g.trait_item or not g.trait_item.endswith("dep_order::DepOrder::process"):
+            continue
+        if clients is not None and not clients(g):
             continue
         n_proc += 1
         gb = Body(g)
